@@ -67,7 +67,6 @@ func TestC19ListenerTimeoutsAreNotUpstreamLimits(t *testing.T) {
 		addr := ln.Addr().String()
 		ln.Close()
 		go proxy.ListenAndServeHTTP(config.Listen{Addr: addr, Proto: "http", ReadTimeout: rt, WriteTimeout: wt}, p, nil)
-		defer proxy.CloseProxy(addr)
 		var c net.Conn
 		for i := 0; i < 400; i++ {
 			if c, err = net.DialTimeout("tcp", addr, 100*time.Millisecond); err == nil {
